@@ -275,6 +275,70 @@ def replay_path(args):
     return out
 
 
+def random_run(args):
+    """A random schedule of more overlapping calls than the exhaustive configurations have, recorded step by step."""
+    import random  # noqa: PLC0415
+
+    seed, ncall, genbased, suppress = args
+    rnd = random.Random(seed)
+    L = tm.load_lib()
+    try:
+        s = DecoSys(L, ncall, genbased, suppress)
+    except Exception as ex:  # noqa: BLE001
+        return {"cfg": {"ncall": ncall}, "ev": [], "error": repr(ex)}
+    ev = []
+    for _ in range(6 * ncall):
+        opts = [(a, c) for c in range(1, ncall + 1) for a in ("start", "entered", "bodyend", "exited", "cancel") if s.can(a, c)]
+        opts = [(a, c) for a, c in opts if a != "cancel" or rnd.random() < 0.15]
+        if not opts:
+            break
+        a, c = rnd.choice(opts)
+        arg = rnd.choice(["ret", "ret", "raise"]) if a == "bodyend" else "-"
+        try:
+            s.apply(a, c, arg)
+        except Exception as ex:  # noqa: BLE001
+            return {"cfg": {"ncall": ncall}, "ev": ev, "error": f"{a} {c}: {ex!r}"}
+        ev.append({"a": a, "c": c, "arg": arg, **s.project()})
+    for c, t in list(s.task.items()):      # let everything finish
+        n = 0
+        while not t.done and n < 10:
+            s.current = c
+            s._after(c, t.step())
+            n += 1
+    return {"cfg": {"ncall": ncall, "genbased": genbased, "suppress": suppress}, "ev": ev, "error": None,
+            "errors": s.errors, "acct_ok": s.acct.ok()}
+
+
+def beyond_bounds(tier, seed, v):
+    from .tracecheck import validate  # noqa: PLC0415
+
+    n = 300 if tier == "quick" else 6000
+    stats = {"traces": 0, "events": 0, "states": 0, "wall": 0.0, "runs": 0}
+    for (ncall, genbased, suppress) in ((5, True, False), (6, False, True), (7, True, True), (5, False, False)):
+        jobs = [(seed * 92821 % (2 ** 31) + i + 1000 * ncall, ncall, genbased, suppress) for i in range(n // 4)]
+        with mp.Pool(min(16, os.cpu_count() or 4)) as pool:
+            hs = pool.map(random_run, jobs, chunksize=16)
+        for h in hs:
+            if h["error"]:
+                v.violation("C15/decorator/calling-the-decorated-function-fails", {"engine": "decorator", "mode": "random", "cfg": h["cfg"], "observed": h["error"]})
+            elif h["errors"]:
+                kind = h["errors"][0][0] if h["errors"][0][0] in ("function-called-outside-its-context", "keyword-arguments-lost", "argument-of-the-manager-lost") else "calls-interfere"
+                v.violation(f"C15/decorator/{kind}", {"engine": "decorator", "mode": "random", "cfg": h["cfg"], "observed": h["errors"][:3]})
+        hs = [h for h in hs if not h["error"]]
+        const = cfg_text(ncall, genbased, suppress, False, edges=False)
+        const = const[: const.index("INIT Init")]
+        rejected, st = validate("DecoratorTrace", [{"cfg": h["cfg"], "ev": h["ev"]} for h in hs], extra_cfg=const, spec="Spec2")
+        for k in stats:
+            stats[k] += st[k]
+        for idx, matched in rejected.items():
+            h = hs[idx]
+            bad = h["ev"][matched] if matched < len(h["ev"]) else {"a": "missing"}
+            v.violation(f"C15/decorator/trace-rejected-at-{bad.get('a')}",
+                        {"engine": "decorator", "mode": "trace", "spec": "DecoratorTrace", "cfg": h["cfg"], "step": matched,
+                         "matched_prefix": [[e["a"], e["c"], e["arg"]] for e in h["ev"][max(0, matched - 6): matched]], "rejected_event": bad})
+    return stats
+
+
 def check(prop, tier, seed, into=None):
     v = into or Verdict(prop, tier, seed)
     label_counts = {}
@@ -294,6 +358,7 @@ def check(prop, tier, seed, into=None):
                     v.violation(sig, d)
         if paths:
             v.sample({"cfg": list(cfg), "schedule": [e["a"] for e in paths[len(paths) // 2]]})
+    tstats = beyond_bounds(tier, seed, v) if into is None else {}
     v.assumptions += ["enter, body and exit each suspend once; managers are the instrumented ones of harness/eng_decor.py"]
     vac = dict(label_counts)
     missing = [a for a in ["start", "entered", "bodyend", "exited", "cancel"] if not vac.get(a)]
@@ -302,7 +367,7 @@ def check(prop, tier, seed, into=None):
     return v.finish({
         "states": tot["states"], "transitions": tot["transitions"], "traces_validated_against_impl": tot["paths"],
         "edge_cover_paths": tot["paths"], "configs": [list(c) for c in TIERS[tier]], "exhaustive": True, "vacuity_guard_actions_taken": vac,
-        "evaluations": tot["paths"], "distinct_nontrivial": tot["paths"],
-        "rule": "one replay per transition of the Decorator state graph (shortest schedule + that step)",
+        "evaluations": tot["paths"], "distinct_nontrivial": tot["paths"], "random_schedules_validated_by_TLC": tstats,
+        "rule": "one replay per transition of the Decorator state graph (shortest schedule + that step); random schedules of 5..7 overlapping calls validated against DecoratorTrace",
         "checker_cmd": "tlc spec/Decorator.tla (INVARIANTs OwnGenerator, Paired, Result)",
     })
